@@ -123,6 +123,49 @@ let c18 (t : toks) (b : Buffer.t) =
                   List.iter (fun (i, x) -> Buffer.add_char b ' '; pr_nat b i; Buffer.add_char b ':'; pr_z b x) v) vs
   | s -> failwith ("c18: bad kind " ^ s)
 
+(* ---------- C18 (overflow): the traced models of FpOverflowModel.v ----------
+   same case lines as c18 (the kind may carry a suffix naming the C++ type, e.g. Gi, IW); output = the c18 answer, then
+   " | <smallest traced value> <largest traced value> <smallest divisor or 0>" for the computation without the
+   PARMCB_INVARIANTS_CHECK extras and, for G / I / P, " | <smallest> <largest>" with them *)
+let c18ov (t : toks) (b : Buffer.t) =
+  let summ tr = let ((lo, hi), dv) = tsummary tr in
+    Buffer.add_string b " | "; pr_z b lo; Buffer.add_char b ' '; pr_z b hi; Buffer.add_char b ' '; pr_z b dv in
+  let summ2 tr = let ((lo, hi), _) = tsummary tr in
+    Buffer.add_string b " | "; pr_z b lo; Buffer.add_char b ' '; pr_z b hi in
+  let k = next t in
+  match k.[0] with
+  | 'G' ->
+      let a = next_z t in let c = next_z t in
+      let (r, tr) = ext_gcd_tr false a c in
+      (match r with
+       | GcdOk (g, x, y) -> Buffer.add_string b "G "; pr_z b g; Buffer.add_char b ' '; pr_z b x; Buffer.add_char b ' '; pr_z b y
+       | GcdOutOfFuel -> Buffer.add_string b "MODEL-ERROR out-of-fuel");
+      summ tr; summ2 (snd (ext_gcd_tr true a c))
+  | 'I' ->
+      let a = next_z t in let p = next_z t in
+      let (r, tr) = mult_inverse_tr false a p in
+      (match r with
+       | InvOk x -> Buffer.add_string b "I "; pr_z b x
+       | InvThrow -> Buffer.add_string b "THROW"
+       | InvOutOfFuel -> Buffer.add_string b "MODEL-ERROR out-of-fuel");
+      summ tr; summ2 (snd (mult_inverse_tr true a p))
+  | 'P' ->
+      let p = next_z t in
+      let (r, tr) = is_prime_tr false p in
+      Buffer.add_string b (if r then "P 1" else "P 0");
+      summ tr; summ2 (snd (is_prime_tr true p))
+  | 'V' ->
+      let p = next_z t in let k = next_nat t in let _d = next_int t in
+      let ops = next_list t c18_op in
+      let ((outs, vs), tr) = frun_tr_dump p k ops in
+      Buffer.add_string b "O";
+      List.iter (fun o -> Buffer.add_char b ' ';
+                  match o with FOutZ x -> pr_z b x | FOutNat n -> pr_nat b n) outs;
+      List.iter (fun v -> Buffer.add_string b " ; V";
+                  List.iter (fun (i, x) -> Buffer.add_char b ' '; pr_nat b i; Buffer.add_char b ':'; pr_z b x) v) vs;
+      summ tr
+  | _ -> failwith ("c18ov: bad kind " ^ k)
+
 (* ---------- graphs ---------- *)
 (* tokens: n m (u v w)*m  -> (graph, weights as Z list) *)
 let next_graph t : graph * z list =
@@ -192,6 +235,7 @@ let c15 t b =
 let components : (string * (toks -> Buffer.t -> unit)) list = [
   ("c17", c17);
   ("c18", c18);
+  ("c18ov", c18ov);
   ("c16", c16);
   ("c13", c13);
   ("c15", c15);
